@@ -1,0 +1,42 @@
+//go:build verif
+
+package ast
+
+// Contracts for package ast (see /verif/DESIGN.md, C03).
+// This file contains no declarations: it only carries specification comments
+// that the elkvc verification-condition generator reads.
+
+/*@
+// Read-only classification helpers over syntax trees.  They walk the tree they are given and
+// write nothing.  Trusted: their own nil-safety depends on every child of a node being a real
+// node, an invariant of the trees the parser builds that is not stated node kind by node kind.
+func PatternDeclaresVariables
+  trusted
+  pure
+  assigns nothing
+
+func IsPositionalRestParam
+  trusted
+  pure
+  assigns nothing
+
+func IsNamedRestParam
+  trusted
+  pure
+  assigns nothing
+
+func MethodNameIsSetter
+  trusted
+  pure
+  assigns nothing
+
+func IsValidDeclarationTarget
+  trusted
+  pure
+  assigns nothing
+
+func IsValidAssignmentTarget
+  trusted
+  pure
+  assigns nothing
+@*/
